@@ -128,6 +128,12 @@ func (wg *WeightedAuthorizationModelGraph) AssignWeights() error {
 	ancestorPath := make([]*WeightedAuthorizationModelEdge, 0)
 	tupleCycleDependencies := make(map[string][]*WeightedAuthorizationModelEdge)
 
+	// a cycle that does not need any tuple to be traversed is a model cycle whatever
+	// the order in which the nodes are visited below
+	if wg.hasModelCycle() {
+		return ErrModelCycle
+	}
+
 	for node := range wg.nodes {
 		if visited[node] {
 			continue
@@ -142,6 +148,44 @@ func (wg *WeightedAuthorizationModelGraph) AssignWeights() error {
 		}
 	}
 	return nil
+}
+
+// hasModelCycle returns true when the graph has a cycle made only of rewrite and computed edges,
+// i.e. a cycle that can be traversed without any tuple.
+func (wg *WeightedAuthorizationModelGraph) hasModelCycle() bool {
+	const (
+		inProgress = 1
+		done       = 2
+	)
+	state := make(map[string]int, len(wg.nodes))
+
+	var visit func(nodeID string) bool
+	visit = func(nodeID string) bool {
+		state[nodeID] = inProgress
+		for _, edge := range wg.edges[nodeID] {
+			if edge.edgeType != RewriteEdge && edge.edgeType != ComputedEdge {
+				continue
+			}
+			switch state[edge.to.uniqueLabel] {
+			case inProgress:
+				return true
+			case done:
+				continue
+			}
+			if visit(edge.to.uniqueLabel) {
+				return true
+			}
+		}
+		state[nodeID] = done
+		return false
+	}
+
+	for nodeID := range wg.nodes {
+		if state[nodeID] == 0 && visit(nodeID) {
+			return true
+		}
+	}
+	return false
 }
 
 func (wg *WeightedAuthorizationModelGraph) calculateEdgeWildcards(edge *WeightedAuthorizationModelEdge) {
